@@ -14,6 +14,7 @@ import (
 	"math"
 	"strconv"
 	"strings"
+	"time"
 
 	"github.com/peterstace/simplefeatures/geom"
 	"verifharness/lib"
@@ -111,24 +112,48 @@ func zDump(g geom.Geometry) string {
 
 // ---------------------------------------------------------------- observations
 
-func hullOf(g geom.Geometry) (out geom.Geometry, s string, ok bool) {
-	defer func() {
-		if r := recover(); r != nil {
-			s = "PANIC"
-			ok = false
-		}
+// A call of the implementation that does not return within the time limit is an observation
+// ("HANG"), not a reason for the harness to hang; after a few of them the remaining calls of
+// that run are skipped (the spinning goroutines cannot be stopped).
+var hangs int
+
+const hangLimit = 3
+
+func guarded(f func() string) string {
+	if hangs >= hangLimit {
+		return "HANG-SKIPPED"
+	}
+	ch := make(chan string, 1)
+	go func() {
+		defer func() {
+			if r := recover(); r != nil {
+				ch <- "PANIC"
+			}
+		}()
+		ch <- f()
 	}()
-	out = g.ConvexHull()
-	return out, zDump(out), true
+	select {
+	case s := <-ch:
+		return s
+	case <-time.After(3 * time.Second):
+		hangs++
+		return "HANG"
+	}
 }
 
-func rectOf(f func(geom.Geometry) geom.Geometry, g geom.Geometry) (s string) {
-	defer func() {
-		if r := recover(); r != nil {
-			s = "PANIC"
-		}
-	}()
-	out := f(g)
+func hullOf(g geom.Geometry) (out geom.Geometry, s string, ok bool) {
+	s = guarded(func() string {
+		out = g.ConvexHull()
+		return zDump(out)
+	})
+	return out, s, s != "PANIC" && !strings.HasPrefix(s, "HANG")
+}
+
+func rectOf(f func(geom.Geometry) geom.Geometry, g geom.Geometry) string {
+	return guarded(func() string { return rectDump(f(g)) })
+}
+
+func rectDump(out geom.Geometry) string {
 	if out.IsPolygon() && !out.IsEmpty() {
 		p := out.MustAsPolygon()
 		seq := p.ExteriorRing().Coordinates()
@@ -252,6 +277,99 @@ func (g *gen) pointCloud(shape string, k int) [][2]int {
 			}
 			pts = append(pts, [2]int{ox + p[0], oy + p[1]})
 		}
+	case "bigchain":
+		// Many points in strictly convex position (hull sizes random data never reaches): k is
+		// ignored, the cloud has at most 200 points. Ordinates stay below 2^13, so every cross
+		// product of differences is far below 2^53 and still exact in float64.
+		ox, oy := r.Range(-30, 30), r.Range(-30, 30)
+		var conv [][2]int
+		switch r.Intn(4) {
+		case 0, 1: // one long chain on a parabola (x, x(x+1)/2): 65..150 vertices; lower or upper
+			n := r.Range(65, 150)
+			lo := -(n / 2)
+			s := 1
+			if r.Chance(1, 3) {
+				s = -1
+			}
+			for j := 0; j < n; j++ {
+				x := lo + j
+				conv = append(conv, [2]int{ox + x, oy + s*x*(x+1)/2})
+			}
+			// interior points: between the arc and its chord
+			top := lo * (lo + 1) / 2
+			for j := r.Range(0, 200-n); j > 0; j-- {
+				x := r.Range(lo+1, lo+n-2)
+				y := x * (x + 1) / 2
+				pts = append(pts, [2]int{ox + x, oy + s*r.Range(y, top)})
+			}
+		case 2: // cubic-like arc (x, x^2 + x(x+1)(x+2)/6 for x >= 0): slopes strictly increasing
+			n := r.Range(65, 110)
+			for j := 0; j < n; j++ {
+				if j < 32 {
+					conv = append(conv, [2]int{ox + j, oy + j*j + j*(j+1)*(j+2)/6})
+				} else { // continue with a parabola of larger curvature to stay below 2^13
+					t := j - 31
+					b := 31*31 + 31*32*33/6
+					conv = append(conv, [2]int{ox + j, oy + b + 1200*t + 8*t*t})
+				}
+			}
+		default: // both chains long: all primitive directions of a K x K box, sorted by angle
+			K := r.Range(7, 8)
+			type vec struct{ a, b int }
+			var quad []vec
+			gcd := func(a, b int) int {
+				for b != 0 {
+					a, b = b, a%b
+				}
+				return a
+			}
+			for a := 1; a <= K; a++ {
+				for b := 1; b <= K; b++ {
+					if gcd(a, b) == 1 {
+						quad = append(quad, vec{a, b})
+					}
+				}
+			}
+			// sort by angle: b/a ascending
+			for i := 1; i < len(quad); i++ {
+				for j := i; j > 0 && quad[j].b*quad[j-1].a < quad[j-1].b*quad[j].a; j-- {
+					quad[j], quad[j-1] = quad[j-1], quad[j]
+				}
+			}
+			dirs := []vec{{1, 0}}
+			dirs = append(dirs, quad...)
+			all := append([]vec(nil), dirs...)
+			for q := 1; q < 4; q++ { // rotate by 90 degrees three times
+				for _, d := range dirs {
+					v := d
+					for t := 0; t < q; t++ {
+						v = vec{-v.b, v.a}
+					}
+					all = append(all, v)
+				}
+			}
+			// start at the bottom, shifted left by half the width, so that the polygon is centred
+			x, y := ox, oy
+			for _, d := range all {
+				conv = append(conv, [2]int{x, y})
+				x, y = x+d.a, y+d.b
+			}
+			w := 0
+			for _, d := range dirs {
+				w += d.a + d.b
+			}
+			for j := r.Range(0, 200-len(conv)); j > 0 && len(conv) < 200; j-- {
+				pts = append(pts, [2]int{ox + r.Range(-w/8, w/8), oy + w/2 + r.Range(-w/8, w/8)})
+			}
+		}
+		pts = append(pts, conv...)
+		for j := r.Intn(8); j > 0 && len(pts) < 200; j-- { // duplicates of hull vertices
+			pts = append(pts, conv[r.Intn(len(conv))])
+		}
+		for a := len(pts) - 1; a > 0; a-- {
+			b := r.Intn(a + 1)
+			pts[a], pts[b] = pts[b], pts[a]
+		}
 	default: // "wide": the whole admitted range
 		for i := 0; i < k; i++ {
 			pts = append(pts, [2]int{r.Range(-1024, 1024), r.Range(-1024, 1024)})
@@ -304,10 +422,21 @@ func (g *gen) typed(kind lib.Kind, pts [][2]int, depth int) *lib.Node {
 		if len(pts) == 0 {
 			return n
 		}
-		// exterior ring from the cloud; holes carry points that must NOT reach the hull input
+		// exterior ring from the cloud; holes reuse points of the cloud (then the control points
+		// of the polygon and the points the hull reads are the same set), one time in eight they
+		// are arbitrary: those must NOT reach the hull input (the implementation reads the
+		// exterior ring only; for valid polygons that is no difference)
 		n.Kids = append(n.Kids, g.ringNode(pts))
 		for j := r.Intn(3); j > 0; j-- {
-			n.Kids = append(n.Kids, g.ringNode(g.pointCloud("wide", r.Range(3, 5))))
+			if r.Chance(1, 8) {
+				n.Kids = append(n.Kids, g.ringNode(g.pointCloud("wide", r.Range(3, 5))))
+				continue
+			}
+			var h [][2]int
+			for k := r.Range(3, 5); k > 0; k-- {
+				h = append(h, pts[r.Intn(len(pts))])
+			}
+			n.Kids = append(n.Kids, g.ringNode(h))
 		}
 		return n
 	case lib.KMPoint:
@@ -410,6 +539,57 @@ func (g *gen) variant(n *lib.Node, isRing bool) *lib.Node {
 	return m
 }
 
+// floatCase prints one case of class "float": a MultiPoint of random doubles, its hull, the hull
+// of a shuffled/duplicated variant, the hull of the hull and both rectangles, all as bit patterns.
+func floatCase(w interface{ WriteString(string) (int, error) }, r *lib.Rng, i int) {
+	k := r.Range(3, 40)
+	scale := []float64{1, 1000, 1e-3, 1e6}[r.Intn(4)]
+	mk := func() float64 { return (float64(r.U64()>>11)/float64(uint64(1)<<53)*2 - 1) * scale }
+	n := &lib.Node{Kind: lib.KMPoint, CT: geom.DimXY}
+	for j := 0; j < k; j++ {
+		n.Kids = append(n.Kids, &lib.Node{Kind: lib.KPoint, CT: geom.DimXY, Full: true, C: [][4]float64{{mk(), mk(), 0, 0}}})
+	}
+	v := &lib.Node{Kind: lib.KMPoint, CT: geom.DimXY}
+	for _, kid := range n.Kids {
+		v.Kids = append(v.Kids, kid)
+		if r.Chance(1, 5) {
+			v.Kids = append(v.Kids, kid)
+		}
+	}
+	for a := len(v.Kids) - 1; a > 0; a-- {
+		b := r.Intn(a + 1)
+		v.Kids[a], v.Kids[b] = v.Kids[b], v.Kids[a]
+	}
+	in, vin := n.Build(), v.Build()
+	fdump := func(g geom.Geometry) (geom.Geometry, string, bool) {
+		var out geom.Geometry
+		s := guarded(func() string { out = g.ConvexHull(); return lib.Dump(out) })
+		return out, s, s != "PANIC" && !strings.HasPrefix(s, "HANG")
+	}
+	hg, hs, ok := fdump(in)
+	_, vhs, _ := fdump(vin)
+	hhs, valid := "PANIC", "-"
+	if ok {
+		_, hhs, _ = fdump(hg)
+		valid = "0"
+		if hg.Validate() == nil {
+			valid = "1"
+		}
+	}
+	rect := func(f func(geom.Geometry) geom.Geometry) string {
+		return guarded(func() string {
+			s := rectDump(f(in))
+			if strings.HasPrefix(s, "G ") {
+				return "G -"
+			}
+			return s
+		})
+	}
+	fields := []string{strconv.Itoa(i), "float", lib.Dump(in), hs, lib.Dump(vin), vhs, hhs,
+		rect(geom.RotatedMinimumAreaBoundingRectangle), rect(geom.RotatedMinimumWidthBoundingRectangle), valid}
+	w.WriteString(strings.Join(fields, "\t") + "\n")
+}
+
 func main() {
 	a := lib.ParseArgs()
 	w, done := a.Output()
@@ -429,6 +609,11 @@ func main() {
 		var n *lib.Node
 		class := ""
 		switch {
+		case i%16 == 7:
+			// general-position doubles: covering claims within tolerance (exact Q evaluation in the driver)
+			floatCase(w, r, i)
+			classes["float"]++
+			continue
 		case i%40 == 39:
 			// a polygon whose only ring is empty: not IsEmpty(), but no control points (F90)
 			class = "emptyring"
@@ -439,6 +624,14 @@ func main() {
 			case 2:
 				n = &lib.Node{Kind: lib.KColl, CT: g.ct, Kids: []*lib.Node{n, g.emptyPoint()}}
 			}
+		case i%50 == 12:
+			// hulls with 65..180 vertices, long single chains: no random cloud gets there
+			class = "bigchain"
+			pts := g.pointCloud("bigchain", 0)
+			kinds := []lib.Kind{lib.KMPoint, lib.KMPoint, lib.KLine, lib.KMLine, lib.KPoly, lib.KColl}
+			n = g.typed(kinds[r.Intn(len(kinds))], pts, 0)
+			shapesHist["bigchain"]++
+			sizes["41-200"]++
 		case i%20 == 19:
 			class = "empty"
 			n = g.typed(lib.Kind(r.Intn(7)), nil, 0)
